@@ -12,12 +12,12 @@ import (
 // MapLoop is a `for k, v := range m` loop over a map.
 type MapLoop struct {
 	edgeConds []Cond // conditions known on the phi edge being classified
-	Fn    *ssa.Function
-	Loop  *Loop
-	Range *ssa.Range
-	Next  *ssa.Next
-	Key   ssa.Value // may be nil
-	Val   ssa.Value // may be nil
+	Fn        *ssa.Function
+	Loop      *Loop
+	Range     *ssa.Range
+	Next      *ssa.Next
+	Key       ssa.Value // may be nil
+	Val       ssa.Value // may be nil
 }
 
 // MapLoops lists the loops of fn that range over a map.
